@@ -13,7 +13,7 @@ import os
 import numpy as np
 import z3
 
-from ..core import Ctx, Inconclusive, SBool, SInt, SReal, Unsupported, explore, rebind, s_int, s_min, term, wrap
+from ..core import NumpyFallback, Ctx, Inconclusive, SBool, SInt, SReal, Unsupported, explore, rebind, s_int, s_min, term, wrap
 
 import os
 TESTFILE = os.path.join(os.environ.get("SYMX_REPO", "/repo"), "tests/data/parkes_4bit.sf")
@@ -63,7 +63,7 @@ class Row:
 
 
 def make_np(nsblk):
-    class NPs:
+    class NPs(metaclass=NumpyFallback):
         @staticmethod
         def concatenate(lst):
             if not lst:
@@ -300,7 +300,7 @@ def values_work(P, item):
         subint_samples, nchans, poln_state = nsblk, nchan, state
         npol_ = npol
 
-    class NPo:
+    class NPo(metaclass=NumpyFallback):
         float32 = np.float32
 
         @staticmethod
